@@ -69,13 +69,25 @@ RULE = ("(1) every one of the 2400 one-argument configurations (argument kind - 
         "on a link to a directory designates the directory whatever --no-dereference says; on a file it names "
         "nothing), and the REFERENCE is always the library call on the canonical object - Directory.from_disk / "
         "Content.from_file on os.path.realpath of the object, never on the spelling the command was given; printed "
-        "paths of a recursive listing are resolved by the operating system and matched against the canonical tree")
+        "paths of a recursive listing are resolved by the operating system and matched against the canonical tree; "
+        "(5) link CHAINS as argument objects (objects, not kinds: what the chain finally designates decides): link -> "
+        "link -> file, link -> link -> link -> file with absolute and relative targets mixed, link -> link -> "
+        "directory, a chain whose intermediate link lives in another directory with a relative target (and a decoy "
+        "of that name next to the first link), a file / a directory reached through a chain of directory links in "
+        "the middle of the path, a chain ending in a dangling link, a self-loop and a two-link cycle; under both "
+        "dereference settings, automatic and explicit types, -r, --verify with the canonical object's identifier, in "
+        "invocations with several arguments and under every spelling of (4); reference: the library call on "
+        "os.path.realpath of the chain when it is followed, the FIRST link's own target text when it is not")
 TRUSTED = ["click option parsing, os.path.*, os.scandir, dulwich and git are modelled by a table per argument kind "
            "(model/Cli.v: isfile/isdir/islink/lstat/stat/urlparse scheme/urlparse raises/Origin refuses/is-a-git-repository), "
            "not verified; which kind a string argument has is decided by calling urlparse and model.Origin on it",
            "the identifiers themselves are the library's (Content.from_file/from_bytes, Directory.from_disk, "
            "Origin.swhid, Snapshot.swhid): C18 is about which object the command designates and what it prints"]
-ASSUMPTIONS = ["the designated object of a path argument is the one the operating system resolves the spelling to "
+ASSUMPTIONS = ["a link that leads nowhere (dangling chain, cycle) designates nothing when it is to be followed (usage "
+               "error under --type auto: the only type in scope) and itself, as a content, under --no-dereference; "
+               "explicit -t content / -t directory on such a link is out of scope and not generated for cycles (the "
+               "command hashes the link text / ends in OSError ELOOP: observed, not in the table)",
+               "the designated object of a path argument is the one the operating system resolves the spelling to "
                "(os.path.realpath; the final component is kept when it is a link that must not be followed); the "
                "reference identifiers are computed by the library on that canonical path",
                "one-argument table: exactly one OBJECT argument; several-arguments route: any number, in scope when every "
@@ -407,7 +419,7 @@ def build_fixture(fxspec):
             fx[kd], fx[kd + "2"] = rng.sample(by_kind[kd], 2)
         fx["url3"] = rng.choice(by_kind["url"])
         fx["dir2"] = top(b"u")
-        _populate(rng, fx["dir2"], nonutf8, b"C")
+        fx["dir2_sub"], _ = _populate(rng, fx["dir2"], nonutf8, b"C")
         # git repository (non bare): two commits, a branch, a lightweight and an annotated tag, a tag of a tree
         repo = top(b"g")
         os.mkdir(repo)
@@ -462,6 +474,40 @@ def build_fixture(fxspec):
                 with open(os.path.join(dp, b"decoy"), "wb") as f:
                     f.write(_rdata(rng))
         fx["decoys"] = decoys
+        # link chains (intermediate links are hidden objects k*)
+        def ln(target, name, absolute):
+            os.symlink(target if absolute else os.path.relpath(target, os.path.dirname(name)), name)
+            return name
+        k1 = ln(fx["file"], top(b"k1"), rng.random() < 0.5)
+        fx["chain2f"] = ln(k1, top(b"c2f"), rng.random() < 0.5)
+        mix = rng.sample([True, False, rng.random() < 0.5], 3)            # at least one absolute and one relative
+        k3 = ln(fx["file"], top(b"k3"), mix[0])
+        k2 = ln(k3, top(b"k2"), mix[1])
+        fx["chain3f"] = ln(k2, top(b"c3f"), mix[2])
+        cdir = top(b"cd")
+        os.mkdir(cdir)
+        inner = b"inner" + _rname(rng, nonutf8)
+        with open(os.path.join(cdir, inner), "wb") as f:
+            f.write(b"inner " + _rdata(rng))
+        with open(os.path.join(root, inner), "wb") as f:
+            f.write(b"decoy of inner " + _rdata(rng))                   # what 'inner' names from the wrong directory
+        os.symlink(inner, os.path.join(cdir, b"mid"))                      # relative to cdir
+        fx["chainx"] = ln(os.path.join(cdir, b"mid"), top(b"cx"), False)
+        fx["chainx_target"] = os.path.join(cdir, inner)
+        k4 = ln(fx["dir2"], top(b"k4"), rng.random() < 0.5)
+        fx["chain2d"] = ln(k4, top(b"c2d"), rng.random() < 0.5)
+        regular = sorted(e.name for e in os.scandir(fx["dir2"]) if e.is_file(follow_symlinks=False))
+        fx["midfile"] = os.path.join(fx["chain2d"], regular[0])
+        fx["middir"] = os.path.join(fx["chain2d"], os.path.basename(fx["dir2_sub"]))
+        k5 = top(b"k5")
+        os.symlink(b"nowhere" + _rname(rng, False), k5)
+        fx["dangle"] = ln(k5, top(b"dg"), rng.random() < 0.5)
+        fx["loop1"] = top(b"lp")
+        os.symlink(os.path.basename(fx["loop1"]), fx["loop1"])
+        k6 = top(b"k6")
+        fx["loop2"] = top(b"lq")
+        os.symlink(os.path.basename(k6), fx["loop2"])
+        os.symlink(fx["loop2"] if rng.random() < 0.5 else os.path.basename(fx["loop2"]), k6)
         fx["ids"] = expected_ids(fx)
     except BaseException:
         shutil.rmtree(root, ignore_errors=True)
@@ -534,6 +580,19 @@ def expected_ids(fx):
         # out of scope (-t origin <path>); a path that is not valid UTF-8 is not a valid origin URL
         ids["origin:" + k] = origin_id(os.fsdecode(fx[k]))
     ids["origin:url"] = origin_id(fx["url"])
+    # link chains: the reference is the CANONICAL object (os.path.realpath) when the link is followed, the FIRST link's
+    # own text when it is not
+    for o in CHAIN_OBJS:
+        if os.path.islink(fx[o]):
+            ids["linktext:" + o] = str(C.from_bytes(mode=0o120000, data=os.readlink(fx[o])).swhid())
+        real = os.path.realpath(fx[o])
+        if OBJ_KIND[o] in ("linkfile", "file"):
+            ids["content:" + o] = str(C.from_file(path=real).swhid())
+        elif OBJ_KIND[o] in ("linkdir", "dir"):
+            for x in (0, 1):
+                ids["dir:%s:%d" % (o, x)] = str(_dir_id(real, x).swhid())
+    assert ids["content:chain2f"] == ids["content:chain3f"] == ids["pathcontent"] != ids["content:chainx"]
+    assert os.path.realpath(fx["chainx"]) == fx["chainx_target"]
     ids["snapshot"] = str(_snapshot_id(fx["gitrepo"]))
     # the fixture must be generic: distinct designated objects, distinct identifiers; the exclusion removes something
     generic = [ids["pathcontent"], ids["linktext:linkfile"], ids["linktext:linkdir"], ids["empty"], ids["stdin"],
@@ -550,10 +609,8 @@ def obj_id(fx, kind, obj, excluded, argstr=None):
         return None
     if obj == "origin" and (argstr is not None or kind in STRING_KINDS):
         return origin_id(kind_arg(fx, kind, argstr))
-    if obj == "pathcontent":
-        return ids["pathcontent"]
-    if obj == "targetfile":
-        return ids["targetfile"]
+    if obj in ("pathcontent", "targetfile"):
+        return ids.get("content:" + kind, ids["pathcontent"])
     if obj == "linktext":
         return ids["linktext:" + kind]
     if obj == "empty":
@@ -607,6 +664,20 @@ TRAILING = ("slash", "dslash", "slashdot")
 TOP_ONLY = ("updir", "uplink")            # need the object to sit directly in the fixture root
 SPELLINGS = ["plain", "dotslash", "midslash", "updir", "uplink", "slash", "dslash", "slashdot", "dotdotself"]
 PATH_KINDS = ("file", "dir", "linkfile", "linkdir", "gitrepo")
+# fixture objects that are paths, and the kind of argument each is: link CHAINS are objects, not kinds - what a chain
+# finally designates decides (a link -> link -> file is a link to a file whose target is the file at the end)
+OBJ_KIND = {"file": "file", "dir": "dir", "linkfile": "linkfile", "linkdir": "linkdir", "gitrepo": "gitrepo",
+            "chain2f": "linkfile",    # link -> link -> file
+            "chain3f": "linkfile",    # link -> link -> link -> file, absolute and relative targets mixed
+            "chainx": "linkfile",     # link -> cdir/mid, mid -> "inner" RELATIVE TO cdir (root/inner is a decoy)
+            "chain2d": "linkdir",     # link -> link -> directory
+            "midfile": "file",        # chain2d/<file>: a chain of directory links in the MIDDLE of the path
+            "middir": "dir",          # chain2d/<sub-directory>
+            "dangle": "dangle",       # link -> link -> nothing
+            "loop1": "loop",          # link -> itself
+            "loop2": "loop"}          # link -> link -> the first link
+CHAIN_OBJS = [o for o in OBJ_KIND if o not in PATH_KINDS]
+NOT_IN_ROOT = ("midfile", "middir", "dir_sub", "dir_other")
 
 
 def spelled(fx, path, spell, rel):
@@ -642,10 +713,17 @@ def spelled(fx, path, spell, rel):
     return os.fsdecode(r)
 
 
-def eff_kind(kind, spell):
-    """the kind of argument a spelling makes of an object: what follows a trailing separator is looked up INSIDE the
-    object, so a link to a directory is followed whatever --no-dereference says (the final component is not the link),
-    and a file or a link to a file so spelled does not exist"""
+def eff_kind(obj, spell, deref=1):
+    """the kind of argument a spelling makes of an object (obj: a fixture object or a kind): what follows a trailing
+    separator is looked up INSIDE the object, so a link to a directory is followed whatever --no-dereference says (the
+    final component is not the link), and a file or a link to a file so spelled does not exist.  A link that leads
+    nowhere (dangling chain, cycle) designates nothing when it is to be followed, and itself - a content made of its
+    target path, like any link - when it is not."""
+    kind = OBJ_KIND.get(obj, obj)
+    if kind in ("dangle", "loop"):
+        if spell in TRAILING or spell == "dotdotself":
+            return "missing"
+        return "missing" if deref else "linkfile"
     if spell in TRAILING:
         return {"linkdir": "dir", "file": "missing", "linkfile": "missing"}.get(kind, kind)
     if spell == "dotdotself":
@@ -793,7 +871,7 @@ def impl(case):
             # from the object itself
             sp = case["path"]
             idk = sp["obj"]
-            assert cfg[0] == eff_kind(idk, sp["spell"]), "case kind is not the effective kind of the spelling"
+            assert cfg[0] == eff_kind(idk, sp["spell"], cfg[2]), "case kind is not the effective kind of the spelling"
             argstr = spelled(fx, fx[idk], sp["spell"], sp.get("rel"))
             cwd = os.fsdecode(fx["root"]) if sp.get("rel") else None
         args, arg = cli_args(fx, cfg, row, argstr, idk)
@@ -841,6 +919,11 @@ def expected(fx, cfg, outcome, argstr=None, idk=None):
         # out of scope facts that are not in the table: -t origin <path or string that model.Origin refuses (not valid
         # UTF-8, 2048 bytes or more)> is the same usage error as for a refused URL
         return {"exit": 2, "lines": [], "usage": True}
+    if parts[0] == "crash" and idk and OBJ_KIND.get(idk) in ("dangle", "loop") and cfg[1] in ("content", "directory"):
+        # out of scope: the error class for a link that leads nowhere (no such file / too many levels of links) is
+        # the one the library call raises on the path the command hands it
+        probe = os.fsdecode(os.path.realpath(os.fsencode(arg))) if cfg[2] else arg
+        return {"exit": 1, "lines": [], "exc": library_error(cfg[1], probe, bool(cfg[6])) or parts[1]}
     if parts[0] == "crash" and k in STRING_KINDS and cfg[1] in ("content", "directory"):
         # out of scope: which OSError/ValueError the library call raises for a string that is no path depends on the
         # string (no such file, name too long, embedded NUL): ask the library
@@ -854,7 +937,7 @@ def expected(fx, cfg, outcome, argstr=None, idk=None):
     assert parts[0] == "print"
     obj, excluded, shown, listing = parts[1], parts[2] == "1", parts[3] == "1", parts[4] == "1"
     if not listing:
-        i = obj_id(fx, idk or k, obj, excluded, None if idk else argstr)
+        i = origin_id(arg) if obj == "origin" else obj_id(fx, idk or k, obj, excluded, None if idk else argstr)
         lines, _, other = canon_expected([i + "\t" + arg if shown else i])
         return {"exit": 0, "lines": lines, "other_lines": other}
     ids, rel, top, _ = canonical_tree(fx, fx[idk or k], excluded)
@@ -907,14 +990,17 @@ def diff(obs, exp):
 REF_KIND = {"file": "file", "dir": "dir", "dir2": "dir", "lt": "dir", "dir_sub": "dir", "dir_other": "dir",
             "linkfile": "linkfile", "linkdir": "linkdir", "stdin": "stdin", "url": "url", "url2": "url", "url3": "url",
             "gitrepo": "gitrepo", "missing": "missing", "missing2": "missing", "badurl": "badurl", "badurl2": "badurl",
-            "refusedurl": "refusedurl", "refusedurl2": "refusedurl"}
+            "refusedurl": "refusedurl", "refusedurl2": "refusedurl",
+            "chain2f": "linkfile", "chain3f": "linkfile", "chainx": "linkfile", "chain2d": "linkdir", "midfile": "file",
+            "middir": "dir", "dangle": "dangle", "loop1": "loop"}
 STRING_REFS = [r for r, k in REF_KIND.items() if k in STRING_KINDS]
 UNIDENTIFIABLE = ["missing", "missing2", "badurl", "badurl2", "refusedurl", "refusedurl2"]
-DIR_REFS = ["dir", "dir2", "lt", "dir_sub", "dir_other", "gitrepo", "linkdir"]
+DIR_REFS = ["dir", "dir2", "lt", "dir_sub", "dir_other", "gitrepo", "linkdir", "chain2d", "middir"]
 # patterns that match a directory of that tree (root-relative, fnmatch) and - mostly - nothing in the other trees
 SPECIFIC = {"dir": ["only_A*", "sub*/only_A*"], "dir2": ["only_C*", "*/only_C*"], "lt": ["only_B*", "sub*/only_B*"],
             "linkdir": ["only_B*", "*/only_B*"], "dir_sub": ["deep*", "only_A*"], "dir_other": ["nomatch*"],
-            "gitrepo": ["only_G*", "subdir", ".git", "*.git"]}
+            "gitrepo": ["only_G*", "subdir", ".git", "*.git"], "chain2d": ["only_C*", "*/only_C*"],
+            "middir": ["deep*", "only_C*"]}
 GENERIC = ["sub*", "*/deep*", "empty*", "copy*", "only_*", "nomatch*", "*/only_*"]
 _MANY = {}
 
@@ -940,7 +1026,7 @@ def m_spell(m, i):
 
 def m_kind(m, i):
     """kind of the i-th argument for the model: the kind its spelling makes of the object"""
-    return eff_kind(REF_KIND[m["args"][i]], m_spell(m, i))
+    return eff_kind(REF_KIND[m["args"][i]], m_spell(m, i), m["deref"])
 
 
 def m_arg(fx, m, i):
@@ -984,9 +1070,9 @@ def ref_obj_id(fx, ref, obj, excluded, patterns, arg=None):
     ids = fx["ids"]
     kind = REF_KIND[ref]
     if obj in ("pathcontent", "targetfile"):
-        return ids["pathcontent"]
+        return ids.get("content:" + ref, ids["pathcontent"])
     if obj == "linktext":
-        return ids["linktext:" + kind]
+        return ids["linktext:" + (ref if "linktext:" + ref in ids else kind)]
     if obj in ("empty", "stdin", "snapshot"):
         return ids[obj]
     if obj in ("dirpath", "dirtarget"):
@@ -1177,7 +1263,7 @@ def gen_many(rng, fx, n):
         elif fam < 0.85:
             # an explicit type with arguments it suits
             t = rng.choice(["content", "content", "origin", "snapshot", "directory"])
-            pool = {"content": ["file", "linkfile", "stdin", "file", "linkfile"],
+            pool = {"content": ["file", "linkfile", "stdin", "file", "linkfile", "chain2f", "chain3f", "chainx", "midfile"],
                     "origin": ["url", "url2", "url3", "url", "refusedurl"],
                     "snapshot": ["gitrepo"], "directory": [r for r in DIR_REFS if r != "linkdir"] + ["linkdir"]}[t]
             refs = [rng.choice(pool) for _ in range(k)]
@@ -1202,7 +1288,11 @@ def gen_many(rng, fx, n):
                 if seen:
                     continue
                 seen = True
+            if (REF_KIND[r] in ("dangle", "loop") and m["type"] in ("content", "directory")
+                    and not (m["type"] == "content" and not m["deref"])):
+                continue        # an explicit file-system type on a link that leads nowhere: not in the table
             out.append(r)
+        out = out or ["file"]
         m["args"] = out
         if rng.random() < 0.45:
             # spell the path arguments: trailing separators, ./, //, d/../x through a real directory and through a link
@@ -1212,10 +1302,10 @@ def gen_many(rng, fx, n):
                 if r in STRING_REFS or r == "stdin" or rng.random() < 0.3:
                     spells.append("plain")
                     continue
-                pool = [q for q in SPELLINGS if q != "plain" and (q not in TOP_ONLY or r not in ("dir_sub", "dir_other"))]
-                if REF_KIND[r] in ("file", "linkfile"):
-                    pool = [q for q in pool if eff_kind(REF_KIND[r], q) != "missing" or rng.random() < 0.1]
-                spells.append(rng.choice(pool + ["uplink"] * (0 if r in ("dir_sub", "dir_other") else 3)))
+                pool = [q for q in SPELLINGS if q != "plain" and (q not in TOP_ONLY or r not in NOT_IN_ROOT)]
+                if REF_KIND[r] in ("file", "linkfile", "dangle", "loop"):
+                    pool = [q for q in pool if eff_kind(REF_KIND[r], q, m["deref"]) != "missing" or rng.random() < 0.1]
+                spells.append(rng.choice(pool + ["uplink"] * (0 if r in NOT_IN_ROOT else 3)) if pool else "plain")
             m["spells"] = spells
             m["rel"] = rng.choice([0, 1])
         cases.append({"fx": fx, "multi": m})
@@ -1247,7 +1337,7 @@ def gen(rng, tier):
         if s == 0 or (tier == "thorough" and s < 5):
             cases += gen_strings(rng, fx, tier)
         cases += gen_spellings(rng, fx, tier)
-        many = gen_many(rng, fx, 200 if tier == "quick" else 1500)
+        many = gen_many(rng, fx, 200 if tier == "quick" else 1200)
         for c in rng.sample(many, 4 if tier == "quick" else 15):
             many.append({"fx": fx, "multi": c["multi"], "sub": 1})
         cases += many
@@ -1260,18 +1350,32 @@ def gen_spellings(rng, fx, tier):
     option combinations: automatic and matching explicit type, with and without --dereference, --recursive, --verify
     with the identifier of the canonical object, --exclude; a few through the real subprocess"""
     cases, subs = [], []
-    for obj in PATH_KINDS:
-        natural = {"file": "content", "linkfile": "content", "dir": "directory", "linkdir": "directory", "gitrepo": "directory"}[obj]
-        for spell in SPELLINGS:
-            k = eff_kind(obj, spell)
+    for obj in OBJ_KIND:
+        natural = {"file": "content", "linkfile": "content", "dir": "directory", "linkdir": "directory", "gitrepo": "directory",
+                   "dangle": "content", "loop": "content"}[OBJ_KIND[obj]]
+        spells = [q for q in SPELLINGS if not (q in TOP_ONLY and obj in NOT_IN_ROOT)]
+        if tier == "quick" and obj in CHAIN_OBJS:
+            # quick tier: a chain plain, through the link elsewhere, and two more spellings
+            keep = ["plain"] + (["uplink"] if "uplink" in spells else [])
+            spells = keep + rng.sample([q for q in spells if q not in keep], 2)
+        for spell in spells:
             for rel in (0, 1):
                 combos = [("auto", 1, 1, 0, "none", 0), ("auto", 0, 0, 0, "match", 1), (natural, 1, 1, 1, "none", 1),
                           ("auto", 1, 0, 1, "none", 0), (natural, 0, 1, 0, "match", 0), ("auto", 0, 1, 1, "nonmatch", 0)]
                 if tier == "quick":
                     combos = [combos[0]] + rng.sample(combos[1:], 2 if spell in ("uplink", "dotdotself", "slash") else 1)
+                if obj in CHAIN_OBJS:
+                    if tier == "thorough":
+                        combos = [combos[0]] + rng.sample(combos[1:], 3)
+                    combos = combos + [("auto", 1, 1, 0, "match", 0)]      # a chain followed, verified with the true id
                 for (t, d, f, r, v, x) in combos:
+                    k = eff_kind(obj, spell, d)
                     if k == "missing":
                         t = rng.choice(["auto", "auto", natural])
+                        if OBJ_KIND[obj] in ("dangle", "loop"):
+                            t = rng.choice(["auto", "auto", "origin"])     # explicit content/directory: not in the table
+                    elif OBJ_KIND[obj] in ("dangle", "loop") and t == "directory":
+                        t = "auto"
                     c = {"fx": fx, "cfg": [k, t, d, f, r, v, x], "path": {"obj": obj, "spell": spell, "rel": rel}}
                     cases.append(c)
                     if spell != "plain":
@@ -1413,7 +1517,7 @@ def shrink(c):
                 if q != "plain":
                     sp = list(m["spells"])
                     sp[i] = "plain"
-                    if eff_kind(REF_KIND[m["args"][i]], q) == REF_KIND[m["args"][i]]:
+                    if eff_kind(REF_KIND[m["args"][i]], q, m["deref"]) == eff_kind(REF_KIND[m["args"][i]], "plain", m["deref"]):
                         yield mk(spells=sp)
             if m.get("rel"):
                 yield mk(rel=0)
